@@ -21,13 +21,13 @@ Qed.
 Lemma initial_not_computed_wt : forall p, valid_prop p -> initial_not_computed p = true ->
   match initial p with
   | Some v => wt_in p v = true /\
-              match computer_of p with KNone => shape_ok p v = true | k => modelled k v = true end
+              match computer_of p with KNone => shape_ok p v = true | k => modelled false k v = true end
   | None => False end.
 Proof.
   intros p Hp Hinc.
   pose proof (forall_props (fun p => negb (initial_not_computed p) ||
                  match initial p with
-                 | Some v => wt_in p v && match computer_of p with KNone => shape_ok p v | k => modelled k v end
+                 | Some v => wt_in p v && match computer_of p with KNone => shape_ok p v | k => modelled false k v end
                  | None => false end)
                 ltac:(vm_compute; reflexivity) p Hp) as H. cbv beta in H.
   rewrite Hinc in H. cbn in H. destruct (initial p) as [v|]; [|discriminate].
@@ -68,6 +68,56 @@ Qed.
 
 Definition oknn (r : res value) : Prop := exists s q u, r = Ok (VDim s q u) /\ (0 <= q)%Q.
 
+(* text.CharacterRatio gives a ratio (not negative) for both units *)
+Definition ratios_ok (env : dep -> res value) : Prop := forall b, oknn (env (DRatio b)).
+
+(* the environment `compute` runs the computer functions in: DRatio answered from the
+   recorded metrics (resolve_ratio), everything else by env *)
+Definition env_with (m : option metrics) (env : dep -> res value) (d : dep) : res value :=
+  match d with
+  | DRatio ch => match m with Some mm => Ok (ratio_value mm ch) | None => Panic 7 end
+  | _ => env d
+  end.
+
+Lemma run_pure_resolve {A} env m (pg : prog A) :
+  run_pure env (resolve_ratio m pg) = run_pure (env_with m env) pg.
+Proof.
+  induction pg as [a|s|d k IH]; cbn [resolve_ratio run_pure]; try reflexivity.
+  destruct d; cbn [run_pure env_with];
+    try (match goal with |- context [env ?d] => destruct (env d) end; [apply IH|reflexivity..]).
+  destruct m as [mm|]; [apply IH|reflexivity].
+Qed.
+
+Lemma modelled_mono hm k v : modelled false k v = true -> modelled hm k v = true.
+Proof.
+  assert (U : forall u, unit_ok false u = true -> unit_ok hm u = true).
+  { intros u H. unfold unit_ok in *. cbn [orb] in H. rewrite H. apply orb_true_r. }
+  destruct k; cbn [modelled]; try (intros H; exact H); destruct v; try (intros H; exact H).
+  - apply U.
+  - apply U.
+  - apply U.
+  - apply U.
+  - apply U.
+  - apply U.
+  - apply U.
+  - apply U.
+  - apply U.
+  - intros H. apply orb_prop in H. destruct H as [H|H]; [rewrite H; reflexivity|].
+    apply andb_prop in H. destruct H as [H1 H2]. rewrite H1, (U _ H2). apply orb_true_r.
+  - apply U.
+  - intros H. apply andb_prop in H. destruct H as [H1 H2]. now rewrite (U _ H1), (U _ H2).
+Qed.
+
+Lemma unit_ok_disj nd env u :
+  wt_metrics nd = true -> unit_ok (has_metrics nd) u = true ->
+  uses_metrics u = false \/ ratios_ok (env_with (n_metrics nd) env).
+Proof.
+  unfold wt_metrics, has_metrics, unit_ok. intros Hw H. destruct (n_metrics nd) as [m|].
+  - right. apply andb_prop in Hw. destruct Hw as [H1 H2]. intros b. cbn [env_with]. unfold ratio_value.
+    do 3 eexists. split; [reflexivity|]. destruct b; apply Qle_bool_iff; assumption.
+  - left. cbn [orb] in H. now apply negb_true_iff in H.
+Qed.
+
 Section ComputersTotal.
   Variable env : dep -> res value.
   Variable isr : bool.
@@ -81,7 +131,7 @@ Section ComputersTotal.
     match fso with Some f => (0 <= f)%Q | None => oknn (env (DOwn PFontSize)) end ->
     match v with
     | VInfPx => True
-    | VDim _ _ u => uses_metrics u = false
+    | VDim _ _ u => uses_metrics u = false \/ ratios_ok env
     | _ => False
     end ->
     exists r, run_pure env (length_ exactQ v fso po) = Ok r /\
@@ -111,7 +161,6 @@ Section ComputersTotal.
         exists f. split; [reflexivity|exact Hfs].
       - destruct Hfs as (s1 & f & u1 & Hf & Hf0). exists f. unfold own_fs. cbn. rewrite Hf. cbn. split; [reflexivity|exact Hf0]. }
     destruct Hfsz as (f & Ef & Hf0).
-    unfold uses_metrics in Hv.
     assert (Hrun : forall (k : Q -> prog value),
                run_pure env (fsz <- (match fso with Some f => if Qlt_bool f 0 then own_fs else Ret f | None => own_fs end) ;; k fsz)
                = run_pure env (k f)).
@@ -126,7 +175,11 @@ Section ComputersTotal.
     destruct (u =? U_Rem) eqn:Erem.
     { cbn. rewrite Hr. cbn. eexists. split; [reflexivity|].
       destruct po; cbn; do 3 eexists; (split; [reflexivity|intros Hq; cbn; qnn]). }
-    exfalso. unfold is_font_rel_unit, mem_N in Efr. cbn [existsb] in Efr. lia.
+    destruct Hv as [Hv|Hrat].
+    { exfalso. unfold uses_metrics in Hv. unfold is_font_rel_unit, mem_N in Efr. cbn [existsb] in Efr. lia. }
+    destruct (Hrat (u =? U_Ch)) as (s1 & rt & u1 & Ert & Hrt0).
+    cbn [run_pure]. rewrite Ert. cbn [dim_val pbind run_pure]. eexists. split; [reflexivity|].
+    destruct po; cbn; do 3 eexists; (split; [reflexivity|intros Hq; cbn; qnn]).
   Qed.
 
   Lemma run_pure_bind {A B} (m : prog A) (f : A -> prog B) a :
@@ -137,15 +190,8 @@ Section ComputersTotal.
     - destruct (env d); try discriminate. now apply IH.
   Qed.
 
-  Variable p : N.
   Hypothesis Hpfs : isr = false -> oknn (env (DParent PFontSize)).
-  Hypothesis Hpfw : isr = false -> exists s i, env (DParent PFontWeight) = Ok (VIntStr s i) /\ In i css_weights.
   Hypothesis Hrfs : oknn (env DRootFs).
-  Hypothesis Hpos : exists v, env DSpecPos = Ok v.
-  Hypothesis Hflo : exists v, env DSpecFloat = Ok v.
-  Hypothesis Hown : is_base p = false ->
-    oknn (env (DOwn PFontSize)) /\ (exists a b, env (DOwn PMarks) = Ok (VMarks a b)) /\
-    (computer_of p = KBorderWidth -> exists s, env (DOwn (N.pred p)) = Ok (VStr s)).
 
   Lemma parent_fs_total : exists f, run_pure env (parent_fs isr) = Ok f /\ (0 <= f)%Q.
   Proof.
@@ -168,7 +214,7 @@ Section ComputersTotal.
   Qed.
 
   Lemma font_size_total v :
-    match v with VDim _ q u => (0 <= q)%Q /\ uses_metrics u = false | _ => False end ->
+    match v with VDim _ q u => (0 <= q)%Q /\ (uses_metrics u = false \/ ratios_ok env) | _ => False end ->
     exists r, run_pure env (font_size exactQ isr v) = Ok r /\ nonneg_dim r.
   Proof.
     destruct v as [s q u| | | | | | | | | |]; try contradiction. intros [Hq Hu]. unfold font_size.
@@ -190,6 +236,29 @@ Section ComputersTotal.
     destruct (length_total (VDim s q u) (Some pfs) true Hrfs Hp0 Hu) as (r & Er & s' & q' & u' & -> & Hq').
     exists (VDim s' q' u'). split; [exact Er|]. do 3 eexists. split; [reflexivity|apply Hq', Hq].
   Qed.
+End ComputersTotal.
+
+Section ComputeTotal.
+  Variable env0 : dep -> res value.
+  Variable isr : bool.
+  Variable nd : node.
+  Hypothesis Hwm : wt_metrics nd = true.
+
+  (* the environment once `compute` has resolved the DRatio reads *)
+  Let env := env_with (n_metrics nd) env0.
+
+  Variable p : N.
+  Hypothesis Hpfs : isr = false -> oknn (env (DParent PFontSize)).
+  Hypothesis Hpfw : isr = false -> exists s i, env (DParent PFontWeight) = Ok (VIntStr s i) /\ In i css_weights.
+  Hypothesis Hrfs : oknn (env DRootFs).
+  Hypothesis Hpos : exists v, env DSpecPos = Ok v.
+  Hypothesis Hflo : exists v, env DSpecFloat = Ok v.
+  Hypothesis Hown : is_base p = false ->
+    oknn (env (DOwn PFontSize)) /\ (exists a b, env (DOwn PMarks) = Ok (VMarks a b)) /\
+    (computer_of p = KBorderWidth -> exists s, env (DOwn (N.pred p)) = Ok (VStr s)).
+
+  Lemma HU u : unit_ok (has_metrics nd) u = true -> uses_metrics u = false \/ ratios_ok env.
+  Proof. apply unit_ok_disj, Hwm. Qed.
 
   Lemma shape_trivial r :
     match computer_of p with KNone | KOther | KFontSize | KFontWeight => False | _ => True end ->
@@ -216,9 +285,9 @@ Section ComputersTotal.
     destruct (computer_of p); try exact I; reflexivity.
   Qed.
 
-  Lemma compute_total nd v :
+  Lemma compute_total v :
     wt_decl nd p v = true ->
-    exists r, run_pure env (compute exactQ true isr nd p v) = Ok r /\ shape_ok p r = true.
+    exists r, run_pure env0 (compute exactQ true isr nd p v) = Ok r /\ shape_ok p r = true.
   Proof.
     unfold wt_decl. intros Hwt. apply andb_prop in Hwt. destruct Hwt as [Hin Hsh].
     unfold compute. pose proof nonbase_kind as Hnb. pose proof (fun r => shape_trivial r) as Htriv.
@@ -226,82 +295,92 @@ Section ComputersTotal.
     destruct (computer_of p) eqn:Ek.
     - (* KNone *) cbn. eexists. split; [reflexivity|exact Hsh].
     - (* KLength *)
-      destruct (modelled KLength v) eqn:Em; [|destruct (lookup_oracle nd p); eexists; (split; [reflexivity|exact Hsh])].
+      destruct (modelled (has_metrics nd) KLength v) eqn:Em; [|destruct (lookup_oracle nd p); eexists; (split; [reflexivity|exact Hsh])].
+      rewrite run_pure_resolve. fold env.
       destruct (Hown Hnb) as (Hfs & _ & _).
       destruct v as [s q u| | | | | | | | | |]; try discriminate; cbn [dim_only pbind].
-      + cbn in Em. apply negb_true_iff in Em.
-        destruct (length_total (VDim s q u) None false Hrfs Hfs Em) as (r & Er & _). exists r. split; [exact Er|apply Htriv; exact I].
-      + destruct (length_total VInfPx None false Hrfs Hfs I) as (r & Er & _). exists r. split; [exact Er|apply Htriv; exact I].
+      + cbn [modelled] in Em. apply HU in Em.
+        destruct (length_total env (VDim s q u) None false Hrfs Hfs Em) as (r & Er & _). exists r. split; [exact Er|apply Htriv; exact I].
+      + destruct (length_total env VInfPx None false Hrfs Hfs I) as (r & Er & _). exists r. split; [exact Er|apply Htriv; exact I].
     - (* KBleed *)
-      destruct (modelled KBleed v) eqn:Em; [|destruct (lookup_oracle nd p); eexists; (split; [reflexivity|exact Hsh])].
+      destruct (modelled (has_metrics nd) KBleed v) eqn:Em; [|destruct (lookup_oracle nd p); eexists; (split; [reflexivity|exact Hsh])].
+      rewrite run_pure_resolve. fold env.
       destruct (Hown Hnb) as (Hfs & (ma & mb & Hm) & _).
       destruct v as [s q u| | | | | | | | | |]; try discriminate; unfold bleed.
       + destruct (s ==s "auto").
-        * cbn. rewrite Hm. destruct ma; eexists; (split; [reflexivity|apply Htriv; exact I]).
-        * cbn in Em. apply negb_true_iff in Em.
-          destruct (length_total (VDim s q u) None false Hrfs Hfs Em) as (r & Er & _). exists r. split; [exact Er|apply Htriv; exact I].
-      + destruct (length_total VInfPx None false Hrfs Hfs I) as (r & Er & _). exists r. split; [exact Er|apply Htriv; exact I].
+        * cbn [run_pure]. rewrite Hm. destruct ma; eexists; (split; [reflexivity|apply Htriv; exact I]).
+        * cbn [modelled] in Em. apply HU in Em.
+          destruct (length_total env (VDim s q u) None false Hrfs Hfs Em) as (r & Er & _). exists r. split; [exact Er|apply Htriv; exact I].
+      + destruct (length_total env VInfPx None false Hrfs Hfs I) as (r & Er & _). exists r. split; [exact Er|apply Htriv; exact I].
     - (* KPixelLength *)
-      destruct (modelled KPixelLength v) eqn:Em; [|destruct (lookup_oracle nd p); eexists; (split; [reflexivity|exact Hsh])].
+      destruct (modelled (has_metrics nd) KPixelLength v) eqn:Em; [|destruct (lookup_oracle nd p); eexists; (split; [reflexivity|exact Hsh])].
+      rewrite run_pure_resolve. fold env.
       destruct (Hown Hnb) as (Hfs & _ & _).
       destruct v as [s q u| | | | | | | | | |]; try discriminate; unfold pixel_length.
       destruct (s ==s "normal"); [eexists; split; [reflexivity|apply Htriv; exact I]|].
-      cbn in Em. apply negb_true_iff in Em.
-      destruct (length_total (VDim s q u) None true Hrfs Hfs Em) as (r & Er & _). exists r. split; [exact Er|apply Htriv; exact I].
+      cbn [modelled] in Em. apply HU in Em.
+      destruct (length_total env (VDim s q u) None true Hrfs Hfs Em) as (r & Er & _). exists r. split; [exact Er|apply Htriv; exact I].
     - (* KBorderWidth *)
-      destruct (modelled KBorderWidth v) eqn:Em; [|destruct (lookup_oracle nd p); eexists; (split; [reflexivity|exact Hsh])].
+      destruct (modelled (has_metrics nd) KBorderWidth v) eqn:Em; [|destruct (lookup_oracle nd p); eexists; (split; [reflexivity|exact Hsh])].
+      rewrite run_pure_resolve. fold env.
       destruct (Hown Hnb) as (Hfs & _ & Hst). destruct (Hst eq_refl) as (sty & Hsty).
       destruct v as [s q u| | | | | | | | | |]; try discriminate; unfold border_width. cbn [run_pure]. rewrite Hsty.
       destruct ((sty ==s "none") || (sty ==s "hidden")); [eexists; split; [reflexivity|apply Htriv; exact I]|].
       destruct (assoc_S border_width_keywords s); [eexists; split; [reflexivity|apply Htriv; exact I]|].
-      cbn in Em. apply negb_true_iff in Em.
-      destruct (length_total (VDim s q u) None true Hrfs Hfs Em) as (r & Er & _). exists r. split; [exact Er|apply Htriv; exact I].
+      cbn [modelled] in Em. apply HU in Em.
+      destruct (length_total env (VDim s q u) None true Hrfs Hfs Em) as (r & Er & _). exists r. split; [exact Er|apply Htriv; exact I].
     - (* KColumnWidth *)
-      destruct (modelled KColumnWidth v) eqn:Em; [|destruct (lookup_oracle nd p); eexists; (split; [reflexivity|exact Hsh])].
+      destruct (modelled (has_metrics nd) KColumnWidth v) eqn:Em; [|destruct (lookup_oracle nd p); eexists; (split; [reflexivity|exact Hsh])].
+      rewrite run_pure_resolve. fold env.
       destruct (Hown Hnb) as (Hfs & _ & _).
       destruct v as [s q u| | | | | | | | | |]; try discriminate; cbn [dim_only pbind].
-      + cbn in Em. apply negb_true_iff in Em.
-        destruct (length_total (VDim s q u) None false Hrfs Hfs Em) as (r & Er & _). exists r. split; [exact Er|apply Htriv; exact I].
-      + destruct (length_total VInfPx None false Hrfs Hfs I) as (r & Er & _). exists r. split; [exact Er|apply Htriv; exact I].
+      + cbn [modelled] in Em. apply HU in Em.
+        destruct (length_total env (VDim s q u) None false Hrfs Hfs Em) as (r & Er & _). exists r. split; [exact Er|apply Htriv; exact I].
+      + destruct (length_total env VInfPx None false Hrfs Hfs I) as (r & Er & _). exists r. split; [exact Er|apply Htriv; exact I].
     - (* KGap *)
-      destruct (modelled KGap v) eqn:Em; [|destruct (lookup_oracle nd p); eexists; (split; [reflexivity|exact Hsh])].
+      destruct (modelled (has_metrics nd) KGap v) eqn:Em; [|destruct (lookup_oracle nd p); eexists; (split; [reflexivity|exact Hsh])].
+      rewrite run_pure_resolve. fold env.
       destruct (Hown Hnb) as (Hfs & _ & _).
       destruct v as [s q u| | | | | | | | | |]; try discriminate; unfold gap.
       + destruct (s ==s "normal"); [eexists; split; [reflexivity|apply Htriv; exact I]|].
-        cbn in Em. apply negb_true_iff in Em.
-        destruct (length_total (VDim s q u) None false Hrfs Hfs Em) as (r & Er & _). exists r. split; [exact Er|apply Htriv; exact I].
-      + destruct (length_total VInfPx None false Hrfs Hfs I) as (r & Er & _). exists r. split; [exact Er|apply Htriv; exact I].
+        cbn [modelled] in Em. apply HU in Em.
+        destruct (length_total env (VDim s q u) None false Hrfs Hfs Em) as (r & Er & _). exists r. split; [exact Er|apply Htriv; exact I].
+      + destruct (length_total env VInfPx None false Hrfs Hfs I) as (r & Er & _). exists r. split; [exact Er|apply Htriv; exact I].
     - (* KBreak *)
-      cbn. destruct v; try discriminate. unfold break_. destruct (s ==s "always"); eexists; (split; [reflexivity|apply Htriv; exact I]).
+      cbn [modelled]. rewrite run_pure_resolve.
+      destruct v; try discriminate. unfold break_. destruct (s ==s "always"); eexists; (split; [reflexivity|apply Htriv; exact I]).
     - (* KDisplay *)
-      cbn. destruct v; try discriminate. unfold display. cbn [run_pure].
+      cbn [modelled]. rewrite run_pure_resolve. fold env.
+      destruct v; try discriminate. unfold display. cbn [run_pure].
       destruct Hflo as (fl & ->). destruct Hpos as (pos & ->).
       destruct (match pos with VBoolStr pb ps => (pb, ps) | _ => (false, ""%string) end) as [pb ps].
       repeat (match goal with |- context [if ?c then _ else _] => destruct c end);
         eexists; (split; [reflexivity|apply Htriv; exact I]).
     - (* KFloat *)
-      cbn. destruct v; try discriminate. unfold floating. cbn [run_pure]. destruct Hpos as (pos & ->).
+      cbn [modelled]. rewrite run_pure_resolve. fold env.
+      destruct v; try discriminate. unfold floating. cbn [run_pure]. destruct Hpos as (pos & ->).
       destruct (match pos with VBoolStr pb ps => (pb, ps) | _ => (false, ""%string) end) as [pb ps].
       destruct ((ps ==s "absolute") || (ps ==s "fixed") || pb); eexists; (split; [reflexivity|apply Htriv; exact I]).
     - (* KFontSize *)
-      destruct (modelled KFontSize v) eqn:Em; [|destruct (lookup_oracle nd p); eexists; (split; [reflexivity|exact Hsh])].
+      destruct (modelled (has_metrics nd) KFontSize v) eqn:Em; [|destruct (lookup_oracle nd p); eexists; (split; [reflexivity|exact Hsh])].
+      rewrite run_pure_resolve. fold env.
       assert (p = PFontSize) as Hp.
       { assert (Hv : valid_prop p) by (apply computer_valid; congruence).
         pose proof (forall_props (fun p => match computer_of p with KFontSize => p =? PFontSize | _ => true end)
                       ltac:(vm_compute; reflexivity) p Hv) as H. cbv beta in H. rewrite Ek in H. lia. }
       destruct v as [s q u| | | | | | | | | |]; try discriminate.
-      cbn in Em. apply negb_true_iff in Em. apply Qle_bool_true in Hin.
-      destruct (font_size_total (VDim s q u) (conj Hin Em)) as (r & Er & s' & q' & u' & -> & Hq').
+      cbn [modelled] in Em. apply HU in Em. apply Qle_bool_true in Hin.
+      destruct (font_size_total env isr Hpfs Hrfs (VDim s q u) (conj Hin Em)) as (r & Er & s' & q' & u' & -> & Hq').
       eexists. split; [exact Er|]. rewrite Hp. unfold shape_ok. rewrite N.eqb_refl. apply Qle_bool_iff, Hq'.
     - (* KFontWeight *)
-      cbn [modelled].
+      cbn [modelled]. rewrite run_pure_resolve. fold env.
       assert (p = PFontWeight) as Hp.
       { assert (Hv : valid_prop p) by (apply computer_valid; congruence).
         pose proof (forall_props (fun p => match computer_of p with KFontWeight => p =? PFontWeight | _ => true end)
                       ltac:(vm_compute; reflexivity) p Hv) as H. cbv beta in H. rewrite Ek in H. lia. }
       assert (Hfw : exists w, run_pure env (parent_fw true isr) = Ok w /\ In w css_weights).
       { unfold parent_fw. destruct isr eqn:Er; cbn [andb]; [eexists; split; [reflexivity|vm_compute; tauto]|].
-        destruct (Hpfw eq_refl) as (s1 & i1 & E & Hi). cbn. rewrite E. eexists. split; [reflexivity|exact Hi]. }
+        destruct (Hpfw eq_refl) as (s1 & i1 & E & Hi). cbn [run_pure]. rewrite E. eexists. split; [reflexivity|exact Hi]. }
       destruct Hfw as (w & Ew & Hw).
       destruct v as [| | |s i| | | | | | |]; try discriminate. unfold font_weight.
       assert (Sh : forall i', In i' css_weights -> shape_ok p (VIntStr "" i') = true).
@@ -310,63 +389,68 @@ Section ComputersTotal.
       destruct (font_weight_tables w Hw) as [Hb Hl]. destruct (font_weight_tables_closed w Hw) as [Cb Cl].
       destruct (s ==s "normal") eqn:E1; [eexists; split; [reflexivity|apply Sh; vm_compute; tauto]|].
       destruct (s ==s "bold") eqn:E2; [eexists; split; [reflexivity|apply Sh; vm_compute; tauto]|].
-      destruct (s ==s "bolder") eqn:E3; [rewrite (run_pure_bind _ _ w Ew); eexists; split; [reflexivity|apply Sh; rewrite Hb; exact Cb]|].
-      destruct (s ==s "lighter") eqn:E4; [rewrite (run_pure_bind _ _ w Ew); eexists; split; [reflexivity|apply Sh; rewrite Hl; exact Cl]|].
+      destruct (s ==s "bolder") eqn:E3; [rewrite (run_pure_bind env _ _ w Ew); eexists; split; [reflexivity|apply Sh; rewrite Hb; exact Cb]|].
+      destruct (s ==s "lighter") eqn:E4; [rewrite (run_pure_bind env _ _ w Ew); eexists; split; [reflexivity|apply Sh; rewrite Hl; exact Cl]|].
       eexists; split; [reflexivity|apply Sh].
       unfold mem_S in Hin. cbn [existsb] in Hin. rewrite E1, E2, E3, E4 in Hin. cbn [orb] in Hin. apply weight_mem, Hin.
     - (* KLineHeight *)
-      destruct (modelled KLineHeight v) eqn:Em; [|destruct (lookup_oracle nd p); eexists; (split; [reflexivity|exact Hsh])].
+      destruct (modelled (has_metrics nd) KLineHeight v) eqn:Em; [|destruct (lookup_oracle nd p); eexists; (split; [reflexivity|exact Hsh])].
+      rewrite run_pure_resolve. fold env.
       destruct (Hown Hnb) as (Hfs & _ & _).
       destruct v as [s q u| | | | | | | | | |]; try discriminate; unfold line_height.
       destruct (s ==s "normal"); [eexists; split; [reflexivity|apply Htriv; exact I]|].
       destruct (u =? U_Scalar); [eexists; split; [reflexivity|apply Htriv; exact I]|].
       destruct (u =? U_Perc).
-      { destruct Hfs as (s1 & f & u1 & Ef & _). unfold own_fs. cbn. rewrite Ef. cbn. eexists; split; [reflexivity|apply Htriv; exact I]. }
-      cbn in Em. apply negb_true_iff in Em.
-      destruct (length_total (VDim s q u) None true Hrfs Hfs Em) as (r & Er & s' & q' & u' & -> & _).
-      rewrite (run_pure_bind _ _ _ Er). cbn. eexists; split; [reflexivity|apply Htriv; exact I].
+      { destruct Hfs as (s1 & f & u1 & Ef & _). unfold own_fs. cbn [pbind run_pure]. rewrite Ef. cbn. eexists; split; [reflexivity|apply Htriv; exact I]. }
+      cbn [modelled] in Em. apply HU in Em.
+      destruct (length_total env (VDim s q u) None true Hrfs Hfs Em) as (r & Er & s' & q' & u' & -> & _).
+      rewrite (run_pure_bind env _ _ _ Er). cbn. eexists; split; [reflexivity|apply Htriv; exact I].
     - (* KTabSize *)
-      destruct (modelled KTabSize v) eqn:Em; [|destruct (lookup_oracle nd p); eexists; (split; [reflexivity|exact Hsh])].
+      destruct (modelled (has_metrics nd) KTabSize v) eqn:Em; [|destruct (lookup_oracle nd p); eexists; (split; [reflexivity|exact Hsh])].
+      rewrite run_pure_resolve. fold env.
       destruct (Hown Hnb) as (Hfs & _ & _).
       destruct v as [s q u| | | | | | | | | |]; try discriminate; unfold tab_size.
       + destruct (u =? U_Scalar); [eexists; split; [reflexivity|apply Htriv; exact I]|].
-        cbn in Em. apply negb_true_iff in Em.
-        destruct (length_total (VDim s q u) None false Hrfs Hfs Em) as (r & Er & _). exists r. split; [exact Er|apply Htriv; exact I].
-      + destruct (length_total VInfPx None false Hrfs Hfs I) as (r & Er & _). exists r. split; [exact Er|apply Htriv; exact I].
+        cbn [modelled] in Em. apply HU in Em.
+        destruct (length_total env (VDim s q u) None false Hrfs Hfs Em) as (r & Er & _). exists r. split; [exact Er|apply Htriv; exact I].
+      + destruct (length_total env VInfPx None false Hrfs Hfs I) as (r & Er & _). exists r. split; [exact Er|apply Htriv; exact I].
     - (* KVerticalAlign *)
-      destruct (modelled KVerticalAlign v) eqn:Em; [|destruct (lookup_oracle nd p); eexists; (split; [reflexivity|exact Hsh])].
+      destruct (modelled (has_metrics nd) KVerticalAlign v) eqn:Em; [|destruct (lookup_oracle nd p); eexists; (split; [reflexivity|exact Hsh])].
+      rewrite run_pure_resolve. fold env.
       destruct (Hown Hnb) as (Hfs & _ & _).
       destruct v as [s q u| | | | | | | | | |]; try discriminate; unfold vertical_align.
       destruct (mem_S s valign_keywords) eqn:Ekw; [eexists; split; [reflexivity|apply Htriv; exact I]|].
       destruct Hfs as (s1 & f & u1 & Ef & Hf0).
-      destruct (s ==s "super") eqn:Esup; [unfold own_fs; cbn; rewrite Ef; cbn; eexists; split; [reflexivity|apply Htriv; exact I]|].
-      destruct (s ==s "sub") eqn:Esub; [unfold own_fs; cbn; rewrite Ef; cbn; eexists; split; [reflexivity|apply Htriv; exact I]|].
-      cbn in Em. unfold valign_keyword in Em. rewrite Ekw, Esup, Esub in Em. cbn in Em.
-      apply andb_prop in Em. destruct Em as [Em1 Em2]. apply negb_true_iff in Em1. apply negb_true_iff in Em2. rewrite Em1.
-      destruct (length_total (VDim s q u) None true Hrfs (ex_intro _ s1 (ex_intro _ f (ex_intro _ u1 (conj Ef Hf0)))) Em2)
+      destruct (s ==s "super") eqn:Esup; [unfold own_fs; cbn [pbind run_pure]; rewrite Ef; cbn; eexists; split; [reflexivity|apply Htriv; exact I]|].
+      destruct (s ==s "sub") eqn:Esub; [unfold own_fs; cbn [pbind run_pure]; rewrite Ef; cbn; eexists; split; [reflexivity|apply Htriv; exact I]|].
+      cbn [modelled] in Em. unfold valign_keyword in Em. rewrite Ekw, Esup, Esub in Em. cbn [orb] in Em.
+      apply andb_prop in Em. destruct Em as [Em1 Em2]. apply negb_true_iff in Em1. apply HU in Em2. rewrite Em1.
+      destruct (length_total env (VDim s q u) None true Hrfs (ex_intro _ s1 (ex_intro _ f (ex_intro _ u1 (conj Ef Hf0)))) Em2)
         as (r & Er & s' & q' & u' & -> & _).
-      rewrite (run_pure_bind _ _ _ Er). cbn. eexists; split; [reflexivity|apply Htriv; exact I].
+      rewrite (run_pure_bind env _ _ _ Er). cbn. eexists; split; [reflexivity|apply Htriv; exact I].
     - (* KWordSpacing *)
-      destruct (modelled KWordSpacing v) eqn:Em; [|destruct (lookup_oracle nd p); eexists; (split; [reflexivity|exact Hsh])].
+      destruct (modelled (has_metrics nd) KWordSpacing v) eqn:Em; [|destruct (lookup_oracle nd p); eexists; (split; [reflexivity|exact Hsh])].
+      rewrite run_pure_resolve. fold env.
       destruct (Hown Hnb) as (Hfs & _ & _).
       destruct v as [s q u| | | | | | | | | |]; try discriminate; unfold word_spacing.
       + destruct (s ==s "normal"); [eexists; split; [reflexivity|apply Htriv; exact I]|].
-        cbn in Em. apply negb_true_iff in Em.
-        destruct (length_total (VDim s q u) None false Hrfs Hfs Em) as (r & Er & _). exists r. split; [exact Er|apply Htriv; exact I].
-      + destruct (length_total VInfPx None false Hrfs Hfs I) as (r & Er & _). exists r. split; [exact Er|apply Htriv; exact I].
+        cbn [modelled] in Em. apply HU in Em.
+        destruct (length_total env (VDim s q u) None false Hrfs Hfs Em) as (r & Er & _). exists r. split; [exact Er|apply Htriv; exact I].
+      + destruct (length_total env VInfPx None false Hrfs Hfs I) as (r & Er & _). exists r. split; [exact Er|apply Htriv; exact I].
     - (* KPoint *)
-      destruct (modelled (KPoint pixels_only) v) eqn:Em; [|destruct (lookup_oracle nd p); eexists; (split; [reflexivity|exact Hsh])].
+      destruct (modelled (has_metrics nd) (KPoint pixels_only) v) eqn:Em; [|destruct (lookup_oracle nd p); eexists; (split; [reflexivity|exact Hsh])].
+      rewrite run_pure_resolve. fold env.
       destruct (Hown Hnb) as (Hfs & _ & _).
       destruct v as [| | | | | | | |v1 u1 v2 u2| |]; try discriminate; unfold point_.
-      cbn in Em. apply negb_true_iff in Em. apply orb_false_iff in Em. destruct Em as [Em1 Em2].
-      destruct (length_total (VDim "" v1 u1) None pixels_only Hrfs Hfs Em1) as (r1 & Er1 & s1' & q1' & u1' & -> & _).
-      destruct (length_total (VDim "" v2 u2) None pixels_only Hrfs Hfs Em2) as (r2 & Er2 & s2' & q2' & u2' & -> & _).
-      rewrite (run_pure_bind _ _ _ Er1), (run_pure_bind _ _ _ Er2). cbn.
+      cbn [modelled] in Em. apply andb_prop in Em. destruct Em as [Em1 Em2]. apply HU in Em1. apply HU in Em2.
+      destruct (length_total env (VDim "" v1 u1) None pixels_only Hrfs Hfs Em1) as (r1 & Er1 & s1' & q1' & u1' & -> & _).
+      destruct (length_total env (VDim "" v2 u2) None pixels_only Hrfs Hfs Em2) as (r2 & Er2 & s2' & q2' & u2' & -> & _).
+      rewrite (run_pure_bind env _ _ _ Er1), (run_pure_bind env _ _ _ Er2). cbn.
       eexists; split; [reflexivity|apply Htriv; exact I].
     - (* KOther *)
       cbn [modelled]. destruct (lookup_oracle nd p); eexists; (split; [reflexivity|exact Hsh]).
   Qed.
-End ComputersTotal.
+End ComputeTotal.
 
 (* ------------------------------------------------------------------ Get is total *)
 
@@ -428,13 +512,17 @@ Section Total.
     (lookup_decl nd p = Some (CExplicit v) \/ lookup_decl nd p = Some (CPending (PVal v))) ->
     valid_prop p /\ wt_decl nd p v = true.
   Proof.
-    intros En Hl. pose proof (node_wt n nd En) as Hw. unfold wt_node in Hw. rewrite forallb_forall in Hw.
+    intros En Hl. pose proof (node_wt n nd En) as Hw. unfold wt_node in Hw.
+    apply andb_prop in Hw. destruct Hw as [_ Hw]. rewrite forallb_forall in Hw.
     unfold lookup_decl in Hl.
     destruct (find (fun d => let 'D q _ := d in q =? p) (n_decls nd)) as [[q c]|] eqn:Ef; [|destruct Hl; discriminate].
     apply find_some in Ef. destruct Ef as [Hin Hq]. apply N.eqb_eq in Hq. subst q.
     specialize (Hw _ Hin). unfold valid_prop.
     destruct Hl as [Hl|Hl]; inversion Hl; subst; cbn in Hw; split; lia.
   Qed.
+
+  Lemma metrics_wt n nd : node_at t n = Some nd -> wt_metrics nd = true.
+  Proof. intros En. pose proof (node_wt n nd En) as Hw. unfold wt_node in Hw. apply andb_prop in Hw. apply Hw. Qed.
 
   Definition total_at (n p : N) : Prop := exists v, comp n p = Ok v /\ shape_ok p v = true.
 
@@ -489,7 +577,7 @@ Section Total.
       exists r, compute_value exactQ t n nd p v = Ok r /\ shape_ok p r = true.
     Proof.
       intros Hp Hwt Hbase. unfold compute_value.
-      apply (compute_total (ctx_env exactQ t n nd p) (is_root_node nd) p).
+      apply (compute_total (ctx_env exactQ t n nd p) (is_root_node nd) nd (metrics_wt n nd En) p); cbn [env_with].
       - intros Hr. unfold ctx_env. cbn [pure_env]. rewrite Hr.
         destruct (parent_total PFontSize (proj1 special_props_valid) Hr) as (v' & Ev & Sv). rewrite Ev. apply shape_fs, Sv.
       - intros Hr. unfold ctx_env. cbn [pure_env]. rewrite Hr.
@@ -521,7 +609,8 @@ Section Total.
       destruct (initial_not_computed p) eqn:Einc; [|eauto].
       apply compute_value_total; [exact Hp| |exact Hbase].
       pose proof (initial_not_computed_wt p Hp Einc) as H. rewrite Ei in H. destruct H as [H1 H2].
-      unfold wt_decl. rewrite H1. cbn [andb]. destruct (computer_of p); try exact H2; rewrite H2; reflexivity.
+      unfold wt_decl. rewrite H1. cbn [andb].
+      destruct (computer_of p); try exact H2; rewrite (modelled_mono (has_metrics nd) _ _ H2); reflexivity.
     Qed.
 
     Lemma defaulted_total p :
@@ -695,7 +784,7 @@ End TotalHistories.
 
 (* <html style="font-weight: bolder">: fontWeight dereferenced the nil parent style *)
 Definition witness_bolder_root : tree :=
-  [mkNode None KElem [D PFontWeight (CExplicit (VIntStr "bolder" 0))] []].
+  [mkNode None KElem [D PFontWeight (CExplicit (VIntStr "bolder" 0))] [] None].
 
 Lemma witness_bolder_root_wt : wt_tree witness_bolder_root = true.
 Proof. vm_compute. reflexivity. Qed.
@@ -708,14 +797,14 @@ Proof. split; vm_compute; reflexivity. Qed.
 (* <html style="text-indent: var(--undefined)">: cascadeValue read c.parentStyle.Get on the root *)
 Definition PTextIndent : N := Eval vm_compute in prop_id "text-indent".
 Definition witness_pending_root : tree :=
-  [mkNode None KElem [D PTextIndent (CPending PErr)] []].
+  [mkNode None KElem [D PTextIndent (CPending PErr)] [] None].
 
 Lemma witness_pending_root_wt : wt_tree witness_pending_root = true.
 Proof. vm_compute. reflexivity. Qed.
 
 Lemma get_total_refuted_before_fix_pending :
   computed exactQ false witness_pending_root 0 PTextIndent = Panic 2 /\
-  computed exactQ false [mkNode None KElem [D PTextIndent (CPending PInherit)] []] 0 PTextIndent = Panic 2.
+  computed exactQ false [mkNode None KElem [D PTextIndent (CPending PInherit)] [] None] 0 PTextIndent = Panic 2.
 Proof. split; vm_compute; reflexivity. Qed.
 
 (* the same trees with the repaired code *)
